@@ -7,6 +7,7 @@ import (
 	"sync"
 
 	"go.starlark.net/starlark"
+	"go.starlark.net/starlarkstruct"
 )
 
 // C04 — values reachable from a finished module are deeply immutable.
@@ -93,6 +94,19 @@ var (
 	c04helperSrc  string
 )
 
+// c04derive: expressions that build a NEW value from a (frozen) value x. The
+// result is fresh: it must accept mutation, and mutating it must never show
+// through x (a copy that shares storage with the frozen original — a slice
+// without a copy, a clone that keeps the table, a sum that keeps the frozen
+// flag — breaks one or the other).
+var c04derive = map[string][]string{
+	"list": {"x[:]", "x[0:len(x)]", "x[::1]", "x + []", "[] + x", "x * 1", "list(x)", "[e for e in x]", "x[::-1]", "x[1:]", "list(reversed(x))", "x[:len(x) // 2 + 1]", "x[-2:]", "list(x[:])", "x[0:][0:]"},
+	"dict": {"dict(x)", "x | {}", "{} | x", "dict(x.items())", "{k: v for k, v in x.items()}", "x.items()", "x.keys()", "x.values()", "dict(x, zz=1)", "dict(**x)"},
+	"set":  {"set(x)", "x | set()", "x.union([])", "x & x", "x - set()", "x ^ set()", "list(x)", "x.intersection(x)", "x.difference([])", "x.symmetric_difference([])", "set() | x"},
+	"tuple": {"list(x)", "list(x[:])", "list(x + ())", "[e for e in x]"},
+	"struct": {"x + struct()", "struct() + x", "x + struct(zz_new_field=[1])", "struct(zz_new_field=[1]) + x"},
+}
+
 // helperSource is the separately compiled helper module holding every
 // discovered mutator as a one-parameter function.
 func helperSource() string {
@@ -102,6 +116,11 @@ func helperSource() string {
 		for _, typ := range []string{"list", "dict", "set"} {
 			for _, m := range mutators[typ] {
 				sb.WriteString(m.Def)
+			}
+		}
+		for _, typ := range []string{"list", "dict", "set", "tuple", "struct"} {
+			for i, e := range c04derive[typ] {
+				fmt.Fprintf(&sb, "def derive_%s_%d(x):\n    return %s\n", typ, i, e)
 			}
 		}
 		c04helperSrc = sb.String()
@@ -149,6 +168,25 @@ type c04exec struct {
 	uniSnap  string
 }
 
+// hostFrozenValues: values the host froze before handing them to the module.
+func hostFrozenValues() map[string]starlark.Value {
+	mk := func(src string) starlark.Value {
+		v, err := starlark.EvalOptions(allOn.FileOptions(), &starlark.Thread{Name: "host"}, "host", src, starlark.StringDict{"struct": starlark.NewBuiltin("struct", starlarkstruct.Make)})
+		if err != nil {
+			panic("hostFrozenValues: " + err.Error())
+		}
+		v.Freeze()
+		return v
+	}
+	return map[string]starlark.Value{
+		"hf_list":   mk("[1, [2, 3], \"s\"]"),
+		"hf_dict":   mk("{\"a\": 1, \"b\": [2]}"),
+		"hf_set":    mk("set([1, 2, 3])"),
+		"hf_tuple":  mk("(1, [2], \"t\")"),
+		"hf_struct": mk("struct(a=1, b=[2], c=struct(d=[3]))"),
+	}
+}
+
 func envSnapshot(d starlark.StringDict) string {
 	var sb strings.Builder
 	for _, k := range d.Keys() {
@@ -173,6 +211,9 @@ func c04run(sc *Scenario, faults []Fault, limit uint64) *c04exec {
 	}
 	for k, v := range host {
 		pre[k] = v
+	}
+	for k, v := range hostFrozenValues() {
+		pre[k] = v // frozen by the host before the module runs (like values of an earlier module)
 	}
 	w.Pre = pre
 	ex := &c04exec{w: w, ctx: c, pre: pre, hostVals: host}
@@ -200,6 +241,9 @@ func (p c04) Run(sc *Scenario) *Result {
 		pre := w.Predeclared()
 		w.addC06Builtins(pre)
 		pre["host_list"], pre["host_dict"] = starlark.None, starlark.None
+		for k := range hostFrozenValues() {
+			pre[k] = starlark.None
+		}
 		if _, err := Compile(sc.D, "m.star", sc.Source(), pre); err != nil {
 			res.Invalid = true
 			return res
@@ -391,6 +435,67 @@ func (p c04) oracle(sc *Scenario, ex *c04exec, what string, attempts int, res *R
 				res.Count("module_functions_called_later", 1)
 				check(fmt.Sprintf("calling %s (%s)", fv.Name(), f.Path))
 			}
+		}
+	}
+	// 2b. values derived from frozen ones: fresh, mutable, and not sharing
+	// storage with their frozen source
+	var sources []Node
+	for _, n := range nodes {
+		switch n.V.(type) {
+		case *starlark.List, *starlark.Dict, *starlark.Set, starlark.Tuple, *starlarkstruct.Struct:
+			sources = append(sources, n)
+		}
+	}
+	for k := 0; k < attempts/4 && len(sources) > 0; k++ {
+		n := sources[r.Intn(len(sources))]
+		typ := n.V.Type()
+		exprs := c04derive[typ]
+		if len(exprs) == 0 {
+			continue
+		}
+		di := r.Intn(len(exprs))
+		var y starlark.Value
+		var derr error
+		if pv := safeRun(func() {
+			y, derr = starlark.Call(hc.Th, hg[fmt.Sprintf("derive_%s_%d", typ, di)], starlark.Tuple{n.V}, nil)
+		}); pv != nil || derr != nil || y == nil {
+			continue // e.g. dict(**x) with non-string keys
+		}
+		res.Count("derived_values_built", 1)
+		desc := fmt.Sprintf("%s of %s", exprs[di], n.Path)
+		if !check("building " + desc) {
+			continue
+		}
+		var victims []starlark.Value
+		if IsCollection(y) {
+			victims = append(victims, y)
+		}
+		if st, ok := y.(*starlarkstruct.Struct); ok {
+			// struct sums: the new field's value must be reachable for mutation,
+			// and a later Freeze of the sum must still reach it
+			if v, err := st.Attr("zz_new_field"); err == nil {
+				victims = append(victims, v)
+				st.Freeze()
+				if NeutralMutation(v) == nil {
+					res.Violate("freeze-skipped-derived-value", "%s: %s: after Freeze() of the sum, the list in its new field still accepts mutation", what, desc)
+				}
+				continue
+			}
+		}
+		for _, yv := range victims {
+			grp := mutatorGroups(yv.Type())
+			m := grp[r.Intn(len(grp))]
+			m1 := m[r.Intn(len(m))]
+			cp := shallowCopy(yv)
+			cb := Canon(cp)
+			_, errc := starlark.Call(hc.Th, hg[m1.Name], starlark.Tuple{cp}, nil)
+			changes := errc == nil && Canon(cp) != cb
+			_, err := starlark.Call(hc.Th, hg[m1.Name], starlark.Tuple{yv}, nil)
+			if changes && err != nil && (strings.Contains(err.Error(), "frozen") || strings.Contains(err.Error(), "during iteration")) {
+				res.Violate("unreachable-value-frozen", "%s: %s is a new value, yet %s on it failed: %v", what, desc, strings.TrimSpace(strings.SplitN(m1.Def, "\n", 3)[1]), err)
+			}
+			res.Count("derived_values_mutated", 1)
+			check(fmt.Sprintf("%s on the new value %s", strings.TrimSpace(strings.SplitN(m1.Def, "\n", 3)[1]), desc))
 		}
 	}
 	if would > 0 && len(targets) > 0 {
